@@ -45,6 +45,9 @@ type PkgAPI struct {
 	NewServer func(cb HandlerCB, ecb NewErrorCB, sec SecServerCB, mw middleware.Middleware, prefix string) (http.Handler, error)
 	NewClient func(serverURL string, hc *http.Client, sec SecClientCB) (any, error)
 	FindPath  func(srv http.Handler, method string, u *url.URL) (RouteInfo, bool)
+	// per-call server URL override of the generated client: through the context, or as a request option
+	ServerURLContext func(ctx context.Context, u *url.URL) context.Context
+	ServerURLOption  func(u *url.URL) any
 }
 
 var pkgs = map[string]PkgAPI{}
@@ -420,6 +423,7 @@ type server struct {
 	stressTS     *httptest.Server
 	stressHC     *http.Client
 	stressClient any
+	stressURL    *url.URL
 }
 
 var servers = map[string]*server{}
